@@ -73,7 +73,7 @@ type Session struct {
 	IntegN  int
 	Active  bool
 	Closed  bool
-	InSeq   uint32 // number of in-session datagrams received
+	InSeq   uint32 // highest inbound session sequence number accepted
 	OutSeq  uint32
 	ivCtr   uint64
 	PrivLvl byte
@@ -329,6 +329,17 @@ func (b *BMC) rakp3(rx *Rx) {
 		rx.ReplyPType = PTRAKP4
 		rx.ReplyPayload = append([]byte{tag, status, 0, 0}, le32(0)...)
 	}
+	if s != nil && s.Active && s.InSeq == 0 && status == 0 {
+		// retransmitted RAKP Message 3 (our RAKP Message 4 was lost): answer again
+		if want, err := s.HS.RAKP3Code(b.kuid()); err == nil && hmac.Equal(want, d[8:]) {
+			rx.Sess = s
+			icv, _ := s.HS.RAKP4ICV(s.SIK)
+			rsp := []byte{tag, 0, 0, 0}
+			rsp = append(rsp, le32(s.HS.SIDM)...)
+			rx.ReplyPType, rx.ReplyPayload = PTRAKP4, append(rsp, icv...)
+			return
+		}
+	}
 	if s == nil || s.Active {
 		rx.problem("RAKP Message 3 for unknown managed system session ID %#x", sidc)
 		fail(0x02)
@@ -388,9 +399,12 @@ func (b *BMC) inSession(rx *Rx, s *Session) {
 		return
 	}
 	rx.Sess = s
-	s.InSeq++
-	if p.Seq != s.InSeq {
-		rx.problem("session sequence number %d, expected %d", p.Seq, s.InSeq)
+	// a BMC accepts any sequence number ahead of the last one it accepted
+	// (datagrams may be lost on the way); reuse or going backwards is refused
+	if p.Seq <= s.InSeq {
+		rx.problem("session sequence number %d is not greater than the last accepted %d", p.Seq, s.InSeq)
+	} else {
+		s.InSeq = p.Seq
 	}
 	wantAuth := s.HS.Suite.Integ != IntegNone
 	wantEnc := s.HS.Suite.Conf != ConfNone
